@@ -11,7 +11,8 @@
 From Coq Require Import List Bool Arith.
 Import ListNotations.
 Require Import PV.Eval.TypeEval.
-Require Import PV.Proofs.TypeEvalBasic PV.Proofs.TypeEvalSingle PV.Proofs.TypeEvalUnion.
+Require Import PV.Proofs.TypeEvalBasic PV.Proofs.TypeEvalSingle PV.Proofs.TypeEvalUnion PV.Proofs.TypeEvalDistrib PV.Proofs.TypeEvalPins.
+Require Import PV.Gen.TypeEvalGen.
 
 (* is_provided / is_positional / is_keyword select by the documented argument
    kind: int and star-args positions are POSITIONAL (0), str and star-star-kwargs
@@ -86,3 +87,60 @@ Example C20_union_or_distributes_example :
   evaluate acc_eq narrow_eq pos_int [(0, [2])] or_body 4 = ([3], []).
 Proof. exact or_example. Qed.
 Print Assumptions C20_union_or_distributes_example.
+
+(* Union distribution for WHOLE bodies, including the and/or partial-match
+   bookkeeping (narrowed / remaining varmaps, key intersection in
+   unite_varmaps, the repaired early exits): one union argument x with members
+   ms, the other arguments union-free, exact narrowing tables, and the guard
+   [tail_block] that excludes the fall-through finding (a statement containing
+   a return is the last statement of its block).  Then the returned types and
+   the show_error sites of the call are exactly the unions of those of the
+   member calls.  (The statement without [tail_block] is
+   union_distributes_full_statement, refuted above.) *)
+Theorem C20_union_distributes_partial :
+  forall (acc : typ -> member -> bool -> bool) (narrow : typ -> member -> list member) (posof : var -> posn),
+  (forall T m ex, acc T m ex = true -> narrow T m = [m]) ->
+  (forall T m ex, acc T m ex = false -> narrow T m = []) ->
+  forall (x : var) (sigma : var -> member) rho ms body dflt,
+  ms <> [] ->
+  (forall v, v <> x -> get rho v = [sigma v]) ->
+  tail_block body = true ->
+  sameset (fst (evaluate acc narrow posof ((x, ms) :: rho) body dflt))
+          (flat_map (fun m => fst (evaluate acc narrow posof ((x, [m]) :: rho) body dflt)) ms) /\
+  sameset (snd (evaluate acc narrow posof ((x, ms) :: rho) body dflt))
+          (flat_map (fun m => snd (evaluate acc narrow posof ((x, [m]) :: rho) body dflt)) ms).
+Proof. exact union_distributes. Qed.
+Print Assumptions C20_union_distributes_partial.
+
+(* every condition, for a union argument: the left / right variable maps denote
+   exactly the members for which the condition is true / false under the
+   reference semantics (this is the and/or bookkeeping lemma the theorem above
+   rests on) *)
+Theorem C20_condition_splits_union :
+  forall (acc : typ -> member -> bool -> bool) (narrow : typ -> member -> list member) (posof : var -> posn),
+  (forall T m ex, acc T m ex = true -> narrow T m = [m]) ->
+  (forall T m ex, acc T m ex = false -> narrow T m = []) ->
+  forall (x : var) (sigma : var -> member) c rho,
+  others x sigma rho -> nonempty (get rho x) ->
+  cret_sets x sigma rho (eval_cond acc narrow posof rho c)
+    (filter (fun m => sem_cond acc posof (sig_m x sigma m) c) (get rho x))
+    (filter (fun m => negb (sem_cond acc posof (sig_m x sigma m) c)) (get rho x)).
+Proof. exact condition_splits_union. Qed.
+Print Assumptions C20_condition_splits_union.
+
+Example C20_tail_guard_inhabited :
+  tail_block or_body = true /\ tail_block fallthrough_body = false /\
+  (forall T m ex, acc_eq T m ex = true -> narrow_eq T m = [m]) /\
+  (forall T m ex, acc_eq T m ex = false -> narrow_eq T m = []).
+Proof. exact tail_guard_inhabited. Qed.
+Print Assumptions C20_tail_guard_inhabited.
+
+(* Tie to the source, re-checked on every run.  [gen_kind_match] is regenerated
+   from ConditionEvaluator.visit_Call by harness/translate/typeeval.py and is the
+   model's kind_match; the other regions the model mirrors (visit_BoolOp,
+   visit_is_of_type, decompose_union, unite_varmaps, visit_block, visit_If, the
+   evaluator hand-off in signature.py, ...) are pinned in Proofs/TypeEvalPins.v,
+   which this file depends on, so an edit of any of them breaks the build. *)
+Theorem C20_kind_predicates_are_translated : forall f p, gen_kind_match f p = kind_match f p.
+Proof. exact gen_kind_match_is_model. Qed.
+Print Assumptions C20_kind_predicates_are_translated.
